@@ -6,6 +6,8 @@ C14 driver: the specification of checkpoint / restore over a key-value map.  Lin
   checkpoint                 remember the committed state
   restore                    the state becomes the remembered one
   openckpt                   the checkpoint directory opened standalone lists the remembered state
+  hist k | ckhist k          (versioned cases) the retained versions of k, newest first, in the store / in the
+                             checkpoint directory opened standalone
   race k                     two overlapping writers of k: the second to commit is refused (first value stays)
   snapread k                 a reader spanning a commit keeps its view (the commit is applied)
 -/
@@ -13,6 +15,16 @@ C14 driver: the specification of checkpoint / restore over a key-value map.  Lin
 structure C14State where
   cur : List (Nat × (Nat × Nat)) := []     -- key ↦ (value id, length), keys ascending
   saved : List (Nat × (Nat × Nat)) := []
+  hist : List (Nat × List (Nat × Nat)) := []      -- key ↦ retained versions, newest first (versioned cases)
+  savedHist : List (Nat × List (Nat × Nat)) := []
+
+def h14Get (h : List (Nat × List (Nat × Nat))) (k : Nat) : List (Nat × Nat) :=
+  match h.find? (·.1 == k) with | some p => p.2 | none => []
+def h14Put (h : List (Nat × List (Nat × Nat))) (k : Nat) (vs : List (Nat × Nat)) : List (Nat × List (Nat × Nat)) :=
+  (k, vs) :: h.filter (·.1 != k)
+/-- a set adds a version; a (hard) delete erases the key's history for good -/
+def h14Set (h : List (Nat × List (Nat × Nat))) (k : Nat) (v : Nat × Nat) := h14Put h k (v :: h14Get h k)
+def h14Del (h : List (Nat × List (Nat × Nat))) (k : Nat) := h14Put h k []
 
 def m14Set (m : List (Nat × (Nat × Nat))) (k : Nat) (v : Nat × Nat) : List (Nat × (Nat × Nat)) :=
   match m with
@@ -22,6 +34,9 @@ def m14Set (m : List (Nat × (Nat × Nat))) (k : Nat) (v : Nat × Nat) : List (N
 def show14 (v : Nat × Nat) : String := s!"{v.1}:{max v.2 (s!"v{v.1}-".length)}"
 def scan14 (m : List (Nat × (Nat × Nat))) : String :=
   if m.isEmpty then "-" else ",".intercalate (m.map (fun p => s!"{p.1}={show14 p.2}"))
+
+def hist14 (vs : List (Nat × Nat)) : String :=
+  if vs.isEmpty then "-" else ",".intercalate (vs.map show14)
 
 def c14Step (st : C14State) (ws : List String) : C14State × String × String :=
   let same (st : C14State) (s : String) := (st, s, s)
@@ -41,8 +56,21 @@ def c14Step (st : C14State) (ws : List String) : C14State × String × String :=
             | _ => none
         | none => none
       | _, _ => none) (some st.cur)
+    let h := writes.foldl (fun (acc : List (Nat × List (Nat × Nat))) w =>
+      match w.splitOn "=" with
+      | [k, v] =>
+        match k.toNat? with
+        | some k =>
+          if v == "DEL" then h14Del acc k
+          else match v.splitOn ":" with
+            | [a, b] => match a.toNat?, b.toNat? with
+              | some a, some b => h14Set acc k (a, b)
+              | _, _ => acc
+            | _ => acc
+        | none => acc
+      | _ => acc) st.hist
     match m with
-    | some m => same { st with cur := m } "ok"
+    | some m => same { st with cur := m, hist := h } "ok"
     | none => same st "bad-op"
   | ["get", k] => match k.toNat? with
     | some k => same st (match st.cur.find? (·.1 == k) with | some p => show14 p.2 | none => "none")
@@ -54,14 +82,20 @@ def c14Step (st : C14State) (ws : List String) : C14State × String × String :=
   | ["release"] => same st "ok"
   | ["compact"] => same st "ok"
   | ["reopen"] => same st "ok"
-  | ["checkpoint"] => same { st with saved := st.cur } "ok"
-  | ["restore"] => same { st with cur := st.saved } "ok"
+  | ["checkpoint"] => same { st with saved := st.cur, savedHist := st.hist } "ok"
+  | ["restore"] => same { st with cur := st.saved, hist := st.savedHist } "ok"
   | ["openckpt"] => same st (scan14 st.saved)
+  | ["hist", k] => match k.toNat? with
+    | some k => same st (hist14 (h14Get st.hist k))
+    | none => same st "bad-op"
+  | ["ckhist", k] => match k.toNat? with
+    | some k => same st (hist14 (h14Get st.savedHist k))
+    | none => same st "bad-op"
   | ["race", k] => match k.toNat? with
-    | some k => same { st with cur := m14Set st.cur k (900001, 5) } "second=refused"
+    | some k => same { st with cur := m14Set st.cur k (900001, 5), hist := h14Set st.hist k (900001, 5) } "second=refused"
     | none => same st "bad-op"
   | ["snapread", k] => match k.toNat? with
-    | some k => same { st with cur := m14Set st.cur k (900003, 7) } "stable"
+    | some k => same { st with cur := m14Set st.cur k (900003, 7), hist := h14Set st.hist k (900003, 7) } "stable"
     | none => same st "bad-op"
   | _ => same st "bad-op"
 
